@@ -19,8 +19,10 @@ Theorem C18_audit_parser : forall buf,
   ((16 <= length buf)%nat -> exists h, parse_audit_message buf = Some (h, skipn 16 buf) /\
      (nl_len h, nl_type h, nl_flags h, nl_seq h, nl_pid h) = uapi_hdr buf).
 Proof. exact parse_audit_message_spec. Qed.
-(* returned sequence numbers increase, and are pairwise distinct whatever the interleaving
-   of the atomic increments (until the 32-bit counter wraps) *)
+(* returned sequence numbers increase and are pairwise distinct along any sequence of Sends (until the
+   32-bit counter wraps).  Concurrent callers: each Send is one atomic add on the counter, so an
+   execution is some sequential order of Sends - that the add is atomic is a runtime fact, observed with
+   8 goroutines x 200 sends on a live socket, not part of this theorem *)
 Theorem C18_seq_increasing : forall n c, cseq c + N.of_nat n < 2^32 -> forall i j a b, (i < j)%nat ->
   nth_error (sends c n) i = Some a -> nth_error (sends c n) j = Some b -> a < b.
 Proof. exact sends_increasing. Qed.
